@@ -829,3 +829,15 @@ def run(db, ctx):
     # fill / ravel hand out `rows * stride` elements of the row storage: a byte count there is a 4x overrun for f32 (seed C06-9)
     common.shared_rule(db, ctx, C19.storage_rules, 'R6.10', 'flat views of a DenseMatrix span rows()*stride() elements from data.as_ptr(), and the row count always matches the row vector '
                        '(shared with R19.2 / R19.5)', ['R19.2', 'R19.5'])
+    # the scanner is the one library caller that passes row *blocks* to the u8 kernel: each block must end within the sequence rows
+    # (rows() - wrap), or the kernel's M-row look-ahead runs past the matrix (seed C06-10 clamped with matrix().rows())
+    from . import scanner as SC
+    # only the block clauses (range handed to the kernel, row advance) bear on memory; the pre-filter / rescoring clauses are C02 / C03 / C08 matter
+    ids = {k_: ('R6.11' if k_ == 'block' else '_drop') for k_ in ('unwrap', 'bound', 'formula', 'cmp', 'block', 'once', 'prefilter', 'down')}
+    ctx.rule('R6.11', 'Scanner::next / max score row blocks self.row .. min(self.row + block_size, rows - wrap): every block lies within the sequence rows, so the '
+                      'kernels\' look-ahead stays inside the wrap rows (the scanner rules R2.1-R2.5 / R3.2 re-evaluated)')
+    for which in ('next', 'max'):
+        SC.analyse(db, ctx, which, ids)
+    ctx.obligations[:] = [o_ for o_ in ctx.obligations if o_.get('rule') != '_drop']
+    ctx.violations[:] = [v_ for v_ in ctx.violations if v_.get('rule') != '_drop']
+    ctx.rules_text.pop('_drop', None)
